@@ -290,3 +290,47 @@ def run(m):
 from contracts.C20 import _line_col  # noqa: E402
 
 _line_col("liquid.exceptions:LiquidError._error_context", "liquid.exceptions:LiquidError", lambda c, index: c.obj("liquid.exceptions:LiquidError", "err"), lambda text, index: [text, index], 5, prop="C03")
+
+
+@structural("C03", "parsers-convert-digits-through-to_int")
+def parsers_use_to_int():
+    """lax mode parses any source the lexer accepts: a digit string of any length in the source
+    (index, literal, shorthand index) must become a LiquidValueError, which the mode handling
+    suppresses -- so the expression parsers and tag parsers never call int() on token text
+    directly, only liquid.limits.to_int (which checks the digit limit first).  Render-time
+    conversions (`int(offset or 0)` on an evaluated value) are not parsing."""
+    import ast
+    from pyvc import flow, load
+    obs = []
+    hits = []
+    for m in load.all_modules():
+        if not (m.startswith("liquid.builtin.expressions") or m.startswith("liquid.builtin.tags") or m.startswith("liquid.extra.tags") or m in ("liquid.parser", "liquid.stream")):
+            continue
+        mod = load.get_module(m)
+        for fn in [x for x in ast.walk(mod.tree) if isinstance(x, (ast.FunctionDef, ast.AsyncFunctionDef))]:
+            if not (fn.name.startswith("parse") or fn.name in ("get_node", "eat", "expect")):
+                continue
+            for c_ in flow.calls(fn):
+                # (float() of a lexed float token never raises: long digit strings give inf)
+                if flow.dotted(c_.func) == "int" and c_.args and not isinstance(c_.args[0], ast.Constant):
+                    hits.append(f"{m}:{fn.name}@{c_.lineno}:{ast.unparse(c_)[:40]}")
+    obs.append(flow.ob("no-parse-function-calls-int()-on-source-text", not hits, str(hits), replay_schema="code", replay_extra={"code": REPLAY_HUGE_INDEX}))
+    return obs
+
+
+REPLAY_HUGE_INDEX = r'''
+def run(m):
+    from liquid import Environment, Mode
+    bad = []
+    big = "1" * 5000
+    for src in ("{{ x[" + big + "] }}", "{% if x[" + big + "] %}a{% endif %}", "{{ " + big + " }}", "{% for i in (1.." + big + ") limit: 1 %}{% endfor %}"):
+        for mode in (Mode.LAX, Mode.WARN):
+            try:
+                import warnings
+                with warnings.catch_warnings():
+                    warnings.simplefilter("ignore")
+                    Environment(tolerance=mode).from_string(src).render(x=[1])
+            except Exception as e:
+                bad.append((src[:12], mode.name, type(e).__name__, str(e)[:40]))
+    return {"violated": bool(bad), "observed": bad[:4], "witness": "huge-digit-string-in-the-source"}
+'''
